@@ -45,6 +45,10 @@ def items(tier):
             for n in ((2,) if q else (2, 3)):
                 out.append(dict(kind="sparse", id="sparse-n%d-%s-%s" % (n, "gen" if gen else "std", sig), n=n, gen=gen,
                                 sigma=sig, nmodes=2))
+    # complex Hermitian sparse pencils in both storage formats (the operator handed to ARPACK must invert A - sigma B itself)
+    for fmt in ("csc", "csr"):
+        out.append(dict(kind="sparse", id="sparse-n2-std-herm-%s-zero" % fmt, n=2, gen=False, sigma="zero", nmodes=2, herm=True, fmt=fmt))
+    out.append(dict(kind="sparse", id="sparse-n2-std-sym-csr-sym", n=2, gen=False, sigma="sym", nmodes=2, fmt="csr"))
     if not q:
         for k in (1, 3):
             out.append(dict(kind="sparse", id="sparse-n3-std-sym-k%d" % k, n=3, gen=False, sigma="sym", nmodes=k))
@@ -177,18 +181,35 @@ def sc_dense(V, P, cfg):
 def sc_sparse(V, P, cfg):
     import pymoto as pym
     n, gen, nm = cfg["n"], cfg["gen"], cfg["nmodes"]
-    A = _sym(V, "A", n, True)
+    A = _herm(V, "A", n) if cfg.get("herm") else _sym(V, "A", n, True)
     B = _spd(V, n) if gen else None
     sigma = V.real("sigma", nonzero=True, default=0.5) if cfg["sigma"] == "sym" else 0.0
-    sigs = [pym.Signal("A", _mk_sparse(V, A))] + ([pym.Signal("B", _mk_sparse(V, B))] if gen else [])
+
+    def sp(Mx):
+        Sx = _mk_sparse(V, Mx)
+        if cfg.get("fmt") == "csr":         # row storage (FE assembly can be asked for it with matrix_type=csr_matrix)
+            Sx = Sx.asformat("csr") if V.symbolic else Sx.tocsr()
+        return Sx
+    sigs = [pym.Signal("A", sp(A))] + ([pym.Signal("B", sp(B))] if gen else [])
     m = pym.EigenSolve(sigs, nmodes=nm, sigma=sigma, hermitian=True)
     if V.symbolic:
         V.c.arpack_calls = []
         from symx import factor, oracles
         oracles.CRAMER_MAX_N = 3
-        W = V.reals("W", n)
-        Q = V.reals("Q", (n, n))
         Bm = np.asarray(B) if gen else np.eye(n, dtype=int).astype(object)
+        if cfg.get("herm"):
+            # these items are about the ARGUMENTS and the shift-invert OPERATOR handed to ARPACK; the oracle's answer is
+            # fixed data (complex eigenvector contracts of a symbolic Hermitian matrix do not finish)
+            from symx import factor, oracles
+            oracles.CRAMER_MAX_N = 3
+            V.c.arpack_calls = []
+            W = wrap(np.array([R.of(1), R.of(2)], dtype=object))
+            Q = wrap(np.array([[C(R.of(1), R.of(0)), C(R.of(0), R.of(0))], [C(R.of(0), R.of(0)), C(R.of(1), R.of(0))]], dtype=object))
+            assume_nonsingular(V, np.asarray(A), "A")
+            factor.register("eig", (W, Q))
+    if V.symbolic and not cfg.get("herm"):
+        W = V.reals("W", n)
+        Q = V.cplxs("Q", (n, n)) if cfg.get("herm") else V.reals("Q", (n, n))
         lhs = np.asarray(A) @ np.asarray(Q)
         rhs = Bm @ np.asarray(Q) @ np.diag(np.asarray(W))
         for i in range(n):
@@ -196,7 +217,10 @@ def sc_sparse(V, P, cfg):
                 V.assume(lhs[i, j] == rhs[i, j], "oracle contract A Q = B Q diag(W)")
         for j in range(n):
             qj = np.asarray(Q)[:, j]
-            V.assume((qj @ Bm @ qj) > 0, "q^T B q > 0 for oracle eigenvectors")
+            if cfg.get("herm"):
+                V.assume((qj @ Bm @ qj) != 0, "q^T B q != 0 for oracle eigenvectors (complex: may vanish otherwise)")
+            else:
+                V.assume((qj @ Bm @ qj) > 0, "q^T B q > 0 for oracle eigenvectors")
         shifted = np.asarray(A) - (sigma * Bm if cfg["sigma"] == "sym" else 0)
         assume_nonsingular(V, shifted, "A - sigma B")
         factor.register("eig", (W, Q))
@@ -228,20 +252,22 @@ def sc_sparse(V, P, cfg):
             elif cfg["sigma"] == "zero":
                 P.holds("M-is-None", call["M"] is None, kind="arpack-arguments")
             # the operator handed to ARPACK solves (A - sigma B) v = r
-            r = V.reals("r", n)
+            r = V.cplxs("r", n) if cfg.get("herm") else V.reals("r", n)
             v = call["OPinv"].matvec(r)
             Bm = np.asarray(B) if gen else np.eye(n, dtype=int).astype(object)
             Sh = np.asarray(A) - (sigma * Bm if cfg["sigma"] == "sym" else 0 * Bm)
             P.arrays_eq("OPinv:(A-sigma B) v == r", Sh @ np.asarray(v), np.asarray(r), kind="shift-invert-operator")
             vt = call["OPinv"].rmatvec(r)
-            P.arrays_eq("OPinv^H:(A-sigma B)^H v == r", Sh.T @ np.asarray(vt), np.asarray(r), kind="shift-invert-operator")
+            ShH = wrap(Sh.T.copy()).conj() if cfg.get("herm") else Sh.T
+            P.arrays_eq("OPinv^H:(A-sigma B)^H v == r", np.asarray(ShH) @ np.asarray(vt), np.asarray(r), kind="shift-invert-operator")
         Wo_, Qo_ = np.asarray(Wo), np.asarray(Qo)
         P.holds("nmodes-returned", Wo_.shape == (nm,) and Qo_.shape == (n, nm), kind="shape")
         Bm = np.asarray(B) if gen else np.eye(n, dtype=int).astype(object)
         for i in range(nm):
             qo = Qo_[:, i]
             P.eq("norm[%d]:q^T B q == 1" % i, qo @ Bm @ qo, 1, kind="normalisation")
-            P.holds("sign[%d]:mean>=0" % i, sum(qo) >= 0, kind="sign")
+            if not cfg.get("herm"):
+                P.holds("sign[%d]:mean>=0" % i, sum(qo) >= 0, kind="sign")
         for i in range(nm - 1):
             P.holds("order[%d]" % i, Wo_[i] <= Wo_[i + 1], kind="ordering")
     return obs
@@ -318,12 +344,15 @@ def _replay_sparse(cfg, label, V):
     N, nm, gen = 8, cfg["nmodes"], cfg["gen"]
     d = np.array([4.0, 7.5, 2.5, 9.0, 5.5, 12.0, 3.25, 8.0])
     Ad = np.diag(d) + np.diag(np.full(N - 1, 1.0), 1) + np.diag(np.full(N - 1, 1.0), -1)
+    if cfg.get("herm"):     # complex Hermitian: purely imaginary skew part on the second off-diagonal
+        Ad = Ad.astype(complex) + 1j * (np.diag(np.linspace(0.3, 0.9, N - 2), 2) - np.diag(np.linspace(0.3, 0.9, N - 2), -2))
     Bd = np.diag(np.linspace(1.0, 2.0, N)) if gen else np.eye(N)
     sigma = float(V.real("sigma", nonzero=True, default=0.5)) if cfg["sigma"] == "sym" else 0.0
     # indefinite w.r.t. the shift: the eigenvalue closest to sigma lies just below it
     W0 = np.sort(spla.eigh(Ad, Bd, eigvals_only=True))
     Ad = Ad - (W0[3] + 0.1 * (W0[4] - W0[3]) - sigma) * Bd
-    sigs = [pym.Signal("A", sps.csc_matrix(Ad))] + ([pym.Signal("B", sps.csc_matrix(Bd))] if gen else [])
+    mk = sps.csr_matrix if cfg.get("fmt") == "csr" else sps.csc_matrix
+    sigs = [pym.Signal("A", mk(Ad))] + ([pym.Signal("B", mk(Bd))] if gen else [])
     m = pym.EigenSolve(sigs, nmodes=nm, sigma=sigma, hermitian=True)
     calls = []
     real = dict(eigsh=spsla.eigsh, eigs=spsla.eigs)
@@ -368,7 +397,7 @@ def _replay_sparse(cfg, label, V):
         if np.real(np.average(Q[:, i])) < -1e-12:
             bad.append("sign[%d]" % i)
         if np.linalg.norm(Ad @ Q[:, i] - W[i] * (Bd @ Q[:, i])) > 1e-6 * np.linalg.norm(Ad):
-            bad.append("pair[%d]" % i)
+            bad += ["pair[%d]" % i, "OPinv"]      # ARPACK was given an operator that does not invert A - sigma B
     for i in range(len(W) - 1):
         if not np.real(W[i]) <= np.real(W[i + 1]) + 1e-12:
             bad.append("order[%d]" % i)
